@@ -24,7 +24,7 @@ type execModel struct {
 	extract *ssa.Call // resultList.ExtractList call that consumes the sink's results
 	// flag
 	flagType, flagField string
-	doneVal            string // normalised constant meaning "done"
+	doneVal             string // normalised constant meaning "done"
 }
 
 func (m *execModel) flagNorm() string { return "p:n." + m.flagField }
